@@ -293,8 +293,90 @@ def r09d(run):
               "that already is the same combinator", necessity="(A | B) | C would nest instead of flatten")
 
 
+OPERATOR_METHODS = ("__and__", "__rand__", "__or__", "__ror__", "__xor__", "__rxor__", "__invert__", "combine_by",
+                    "all_of", "any_of", "one_of", "not_of")
+
+
+def r09e(run):
+    """the union always ends with an attempt under exactly the caller's options"""
+    from . import c18
+    f = run.repo.func("utype.parser.rule", "LogicalType.logical_parse")
+    fa = analysis(f)
+    FLAGS = ("no_data_loss", "no_explicit_cast")
+    conv = [(n, c) for n, c in fa.all_calls() if is_convert_call(fa, n, c) and branch_of(fa, n) == "|"]
+    free = [n for n, c in conv if not c18.flag_guards(fa, n, FLAGS)
+            and not any(call_attr(x) == "enter" and kwarg(x, "options") is not None
+                        for m in fa.cfg.dominators()[n] if m.kind == "with" for x in fa.calls_at(m))]
+    run.check("R09e", f, "the union's last stage converts with the caller's own options, unconditionally", bool(free),
+              construct="no unconditional common stage in the union",
+              message="every conversion attempt of the `|` branch is guarded by the strictness flags or runs under stage "
+                      "options: no attempt uses exactly the caller's options",
+              necessity="with only one of no_data_loss / no_explicit_cast set the union rejects values one of its "
+                        "arguments accepts under the same options: (int | None)('3') under Options(no_data_loss=True)")
+
+
+def r09f(run):
+    """building a combinator never modifies its operands (types are shared: a widened copy must not alter the original,
+    and nothing may be memoised on a class where subclasses inherit it)"""
+    L = run.repo.cls("utype.parser.rule", "LogicalType")
+    total = 0
+    for name in OPERATOR_METHODS:
+        f = L.methods.get(name)
+        if f is None:
+            continue
+        total += 1
+        fa = analysis(f)
+        P = prov(fa)
+        bad = []
+        operands = {p for p in f.params}
+        for n in fa.cfg.nodes:
+            if n.kind != "stmt" or n.ast is None:
+                continue
+            st = n.ast
+            tg = st.targets if isinstance(st, ast.Assign) else [st.target] if isinstance(st, (ast.AugAssign, ast.AnnAssign)) else []
+            for t in tg:
+                if isinstance(t, (ast.Attribute, ast.Subscript)):
+                    root = t
+                    while isinstance(root, (ast.Attribute, ast.Subscript)):
+                        root = root.value
+                    if isinstance(root, ast.Name) and root.id in operands:
+                        bad.append(f"`{norm_stmt(st)[:50]}` stores into the operand `{root.id}`")
+                if isinstance(st, ast.AugAssign) and isinstance(t, ast.Name) and t.id in fa.rd.locals:
+                    # `parts += x` extends a list in place: harmful when parts aliases an attribute of an operand
+                    for o in P.of_name(n, t.id):
+                        if o.kind == "attr" and o.text.split(".")[0] in operands:
+                            bad.append(f"`{norm_stmt(st)[:50]}` extends `{o.text}` in place")
+            for c in fa.calls_at(n):
+                if isinstance(c.func, ast.Name) and c.func.id in ("setattr", "delattr") and c.args \
+                        and isinstance(c.args[0], ast.Name) and c.args[0].id in operands:
+                    bad.append(f"`{unparse(c)[:50]}` sets an attribute on the operand")
+                if isinstance(c.func, ast.Attribute) and c.func.attr in ("append", "extend", "insert", "remove", "pop", "sort",
+                                                                          "reverse", "clear", "update", "add"):
+                    recv = c.func.value
+                    srcs = []
+                    if isinstance(recv, ast.Attribute):
+                        r0 = recv
+                        while isinstance(r0, ast.Attribute):
+                            r0 = r0.value
+                        if isinstance(r0, ast.Name) and r0.id in operands:
+                            srcs.append(unparse(recv))
+                    elif isinstance(recv, ast.Name) and recv.id in fa.rd.locals:
+                        for o in P.of_name(n, recv.id):
+                            if o.kind == "attr" and o.text.split(".")[0] in operands:
+                                srcs.append(o.text)
+                    if srcs:
+                        bad.append(f"`{unparse(c)[:50]}` mutates `{srcs[0]}`")
+        run.check("R09f", f, f"LogicalType.{name} does not modify its operands", not bad,
+                  construct=f"{name} modifies an operand",
+                  message=f"LogicalType.{name}: " + "; ".join(bad[:3]),
+                  necessity="types are shared objects: `base | str` extending base's own argument list makes the earlier "
+                            "built `base` accept strings; a result memoised on a class is inherited by its subclasses, so "
+                            "~Sub returns Not(Base) once ~Base was evaluated")
+    run.floor("R09f", "combinator construction methods", total, 9)
+
+
 def check(run):
-    run.rules_run += ["R09a", "R09b", "R09c", "R09d"]
+    run.rules_run += ["R09a", "R09b", "R09c", "R09d", "R09e", "R09f"]
     run.explain("C09: the branches of logical_parse are discovered from the combinator literal they test; (R09a) in "
                 "| ^ ~ every conversion receives the original input (reaching definitions = the parameter only), & "
                 "threads the running value; (R09b) ~ never reassigns the input, | and ^ return either the exact-type "
@@ -303,3 +385,5 @@ def check(run):
                 "(double negation, dedupe, Any, collapse, flatten) is present.")
     r09(run)
     r09d(run)
+    r09e(run)
+    r09f(run)
